@@ -580,9 +580,9 @@ _SS = _c18_methods(SPOOLED_STRING, [
     {'py': 'seek', 'name': 'seek', 'params': {'pos': 'Int', 'mode': 'Int'}, 'result': 'Int',
      'tie_theorem': 'C18.src_ss_seek_end_eq_model'},
     {'py': 'rollover', 'name': 'rollover', 'params': {}, 'result': 'None',
-     'tie_theorem': 'C18.src_ss_rollover_rolled'},
+     'tie_theorem': 'C18.src_ss_rollover_eq_model'},
     {'py': 'write', 'name': 'write', 'params': {'s': 'Str'}, 'result': 'None',
-     'tie_theorem': 'C18.src_ss_write_closed'},
+     'tie_theorem': 'C18.src_ss_write_eq_model'},
     {'py': 'readline', 'name': 'readline', 'params': {'length': 'Option Int'}, 'result': 'Str',
      'tie_theorem': 'C18.src_ss_readline_eq_model'},
 ])
